@@ -25,7 +25,7 @@ RANK_PAIR = "hand_range::rank_pair::RankPair"
 KIND = "hand_range::hand_range_token::HandRangeTokenKind"
 TOKEN = "hand_range::hand_range_token::HandRangeToken"
 OPT_RANK = f"std::option::Option<{RANK}>"
-OPT_RANK_W = f"std::option::Option<({RANK}, &f32)>"       # the run start together with the weight it was opened with
+OPT_RANK_W = (f"std::option::Option<({RANK}, &f32)>", f"std::option::Option<({RANK}, f32)>")   # run start + the weight it was opened with
 
 
 def U(rule, msg, fn=None, line=None):
@@ -103,13 +103,13 @@ def find_passes(F, fn, pr):
             return None
         ps.opens_with = opens_with
         for l, ds in pr.defs.items():
-            if fn.local_ty(l) not in (OPT_RANK, OPT_RANK_W) or len(ds) < 2 or fn.local_name(l) is None:
+            if fn.local_ty(l) not in (OPT_RANK,) + OPT_RANK_W or len(ds) < 2 or fn.local_name(l) is None:
                 continue
             for (db, si, k, payload) in ds:
                 if k == "rv" and db in lp.body:
                     tt = pr.rvalue(payload)
                     ow = opens_with(tt)
-                    if ow and (ow == "rank+weight") == (fn.local_ty(l) == OPT_RANK_W):
+                    if ow and (ow == "rank+weight") == (fn.local_ty(l) in OPT_RANK_W):
                         S = l
                         carried = ow == "rank+weight"
                     if tt[0] == "call" and tt[1] == "std::option::Option::<T>::map" and len(tt[2]) == 2 and \
@@ -118,10 +118,10 @@ def find_passes(F, fn, pr):
             # `S = move tmp` where tmp = Some(x)
         if S is None:
             for l, ds in pr.defs.items():
-                if fn.local_ty(l) in (OPT_RANK, OPT_RANK_W) and len(ds) >= 2 and fn.local_name(l) is not None:
+                if fn.local_ty(l) in (OPT_RANK,) + OPT_RANK_W and len(ds) >= 2 and fn.local_name(l) is not None:
                     for a in P.alts(pr.local(l)):
                         ow = opens_with(a)
-                        if ow and (ow == "rank+weight") == (fn.local_ty(l) == OPT_RANK_W):
+                        if ow and (ow == "rank+weight") == (fn.local_ty(l) in OPT_RANK_W):
                             S = l
                             carried = ow == "rank+weight"
         if S is None:
@@ -157,12 +157,15 @@ def is_weight_of_start(ps, t):
     return False
 
 
+unopt = I.unopt
+
+
 def is_weight_of_cur(ps, t):
     s = P.strip(t, calls=False)
     if s[0] == "call" and s[1].rsplit("::", 1)[-1] in ("unwrap_or", "unwrap", "unwrap_or_default", "expect") and s[2]:
-        return P.strip(s[2][0], calls=False) == ps.cur_term
+        return unopt(s[2][0]) == ps.cur_term
     if s[0] == "field" and s[1][0] == "variant" and s[1][2] == "Some":
-        return P.strip(s[1][1], calls=False) == ps.cur_term
+        return unopt(s[1][1]) == ps.cur_term
     return False
 
 
@@ -213,7 +216,7 @@ def check_pass(ctx, F, fn, pr, ps, rule, tokens_local_pred):
         return P.strip(t) == ps.S_term or t == ps.S_term
 
     def is_cur(t):
-        return P.strip(t, calls=False) == ps.cur_term
+        return unopt(t) == ps.cur_term
 
     s_edges = [(b, l, st) for (b, l, st) in opt_edges(fn, pr, is_S)]
     c_edges = [(b, l, st) for (b, l, st) in opt_edges(fn, pr, is_cur)]
